@@ -4,7 +4,7 @@ import ast
 import z3
 from . import model as M
 from .model import Val, ValSeq, FIN, NAN, PINF, NINF, NZERO, CLS, CLASSES
-from .engine import (Engine, SV, PyExc, Unsupported, Infeasible, _Return, _Break, _Continue, Frame,
+from .engine import (Engine, SV, PyExc, Unsupported, Infeasible, PathCut, _Return, _Break, _Continue, Frame,
                      s_int, s_bool, s_str, s_float, s_val, s_seq, s_tuple, s_ref, s_py, S_NONE, lift,
                      const_float, simp, conc_int, conc_str, conc_bool)
 
@@ -377,7 +377,7 @@ class Interp(Engine):
             raise PyExc("AttributeError", None, f"bool.{name}")
         if o.kind != "ref":
             raise Unsupported(f"getattr on {o.kind}")
-        cn = self.static_cls(o)
+        cn = self.static_cls_by(o, lambda c: self.attr_key(c, name)) if self.group_classes else self.static_cls(o)
         if cn in ("list", "tuple", "bytes", "bytearray"):
             if name in self.LIST_METHODS or (cn == "bytes" and name in ("decode",)):
                 return s_py(BoundModel(o, name), "func")
@@ -404,6 +404,38 @@ class Interp(Engine):
             return cattr
         return self.read_field(o, cn, name)
 
+    def attr_key(self, c, name):
+        """how attribute `name` resolves on instances of class c (classes with equal keys need no case split)"""
+        ck = self._attr_keys.get((c, name))
+        if ck is not None:
+            return ck
+        if c in ("list", "tuple", "bytes", "bytearray", "dict", "PyCallable") or c not in self.ct.real:
+            k = ("builtin", c)
+        else:
+            found = self.find_method(c, name)
+            if found is not None:
+                k = ("method", found[2], id(found[0]))
+            else:
+                cattr = self.find_class_const(c, name)
+                if cattr is not None and not self.instance_may_set(c, name):
+                    k = ("const", c)
+                else:
+                    known = self.known_fields.get(c)
+                    ft = self.field_types.get(f"{c}.{name}") or self.field_types.get(name)
+                    if ft is None:
+                        real = self.ct.real.get(c)
+                        for base in (real.__mro__[1:] if isinstance(real, type) else ()):
+                            ft = self.field_types.get(f"{base.__name__}.{name}")
+                            if ft is not None:
+                                break
+                    k = ("field", known is not None and name not in known, name in self.optional_fields.get(c, {}), ft,
+                         name == "_prototype" and c == "JSFunction")
+        self._attr_keys[(c, name)] = k
+        return k
+
+    _attr_keys: dict = {}
+    group_classes = True
+
     def instance_may_set(self, cn, name):
         return name in self.instance_fields.get(cn, ())
 
@@ -428,7 +460,18 @@ class Interp(Engine):
         if srt == z3.BoolSort():
             return s_bool(t)
         self.elem_fact(o, t)
+        if name == "_prototype" and cn != "JSFunction":
+            # A-ACYCLIC: prototype chains are acyclic (ES invariant; Object.setPrototypeOf refuses cycles):
+            # instantiated at each read as a strictly decreasing rank
+            rank = z3.Function("proto_rank", z3.IntSort(), z3.IntSort())
+            p.assume(z3.And(rank(o.ref) >= 0, z3.Implies(Val.is_VRef(t), z3.And(rank(Val.ref(t)) >= 0, rank(Val.ref(t)) < rank(o.ref)))))
         ft = self.field_types.get(f"{cn}.{name}") or self.field_types.get(name)
+        if ft is None:
+            real = self.ct.real.get(cn)
+            for base in (real.__mro__[1:] if isinstance(real, type) else ()):
+                ft = self.field_types.get(f"{base.__name__}.{name}")
+                if ft is not None:
+                    break
         if ft is not None:
             self.assume_type(t, ft)
         return s_val(t)
@@ -450,6 +493,9 @@ class Interp(Engine):
         self.p.heap[f"has.{name}"] = z3.Store(arr, o.ref, True)
 
     def assume_type(self, t, ft: str):
+        self.p.assume(self.type_cond(t, ft))
+
+    def type_cond(self, t, ft: str):
         """type invariant of a field: 'list', 'dict', 'int', 'str', 'float?', 'ClassName', 'X?' (optional)"""
         p = self.p
         opt = ft.endswith("?")
@@ -471,7 +517,7 @@ class Interp(Engine):
             raise Unsupported(f"field type {ft}")
         if opt:
             c = z3.Or(c, Val.is_VNone(t))
-        p.assume(c)
+        return c
 
     def find_method(self, cn, name):
         """(FunctionDef, module, owner class) following the MRO of the real class"""
@@ -537,7 +583,8 @@ class Interp(Engine):
         p = self.p
         if o.kind != "ref":
             raise Unsupported(f"setattr on {o.kind}")
-        cn = self.static_cls(o)
+        cn = self.static_cls_by(o, lambda c: (c not in self.ct.real and c, id((self.find_setter(c, name) or [None])[0]),
+                                              name in self.optional_fields.get(c, {})))
         # property setter?
         setter = self.find_setter(cn, name)
         if setter is not None:
@@ -640,6 +687,15 @@ class Interp(Engine):
                         self._in_merge_of = prev
         if summ is None and not isinstance(fv.node, ast.Lambda):
             for d in fv.node.decorator_list:
+                if isinstance(d, ast.Name) and d.id == "recursive":
+                    if getattr(self, "_unfold_body", None) is fv.node:
+                        self._unfold_body = None        # this call executes the body (the unfolding itself)
+                        break
+                    if getattr(self, "_unfolding", None) is fv.node and getattr(self, "_unfold_depth", 0) >= self.unfold_depth:
+                        return self.rec_apply(fv, args)[0]      # application inside the deepest unfolding: uninterpreted
+                    return self.call_recursive(fv, args, kwargs)
+        if summ is None and not isinstance(fv.node, ast.Lambda):
+            for d in fv.node.decorator_list:
                 if isinstance(d, ast.Call) and getattr(d.func, "id", "") == "abstract":
                     impl = self.abstract_impls[d.args[0].value]
                     return impl(self, self.flat_args(args))
@@ -701,7 +757,7 @@ class Interp(Engine):
         if kwargs:
             if a.kwarg is None:
                 raise PyExc("TypeError", None, f"{qn}() got unexpected keyword {list(kwargs)}")
-        fr = Frame(locals_, fv.closure, fv.module)
+        fr = Frame(locals_, fv.closure, fv.module, qualname=qn, fn_node=node)
         self.depth += 1
         try:
             if isinstance(node, ast.Lambda):
@@ -717,8 +773,79 @@ class Interp(Engine):
         finally:
             self.depth -= 1
 
+    # ---- recursive spec functions over the heap (ghost) --------------------------------
+    def heap_epoch(self):
+        """identity of the current heap: recursive spec functions are uninterpreted per heap state"""
+        p = self.p
+        # fields never written still hold their initial array H0_<field> (created lazily on first read)
+        key = tuple(sorted((k, v.get_id()) for k, v in p.heap.items()
+                           if not (z3.is_const(v) and v.decl().name() == f"H0_{k}")))
+        self.keepalive.extend(p.heap.values())
+        ep = getattr(p, "rec_epochs", None)
+        if ep is None:
+            ep = p.rec_epochs = {}
+        if key not in ep:
+            ep[key] = len(ep)
+        return ep[key]
+
+    def rec_apply(self, fv, args):
+        """the application term of a @recursive spec function at the current heap"""
+        name = fv.qualname.split(":")[-1]
+        boxed = [self.box(a) for a in self.flat_args(args)]
+        f = z3.Function(f"{name}!h{self.heap_epoch()}", *([Val] * len(boxed)), Val)
+        t = f(*boxed)
+        self.p.uf_used.add(f"rec:{name}")
+        self.p.assume(M.val_wf(t))
+        rt = fv.node.returns
+        if isinstance(rt, ast.Constant) and isinstance(rt.value, str):
+            self.assume_type(t, rt.value)       # declared range of the ghost function (checked against the body at each unfolding)
+        self.p.assume(z3.Implies(Val.is_VRef(t), Val.ref(t) < self.p.alloc0 + self.p.nalloc))
+        return s_val(t), (f.name(), tuple(b.get_id() for b in boxed)), boxed
+
+    def call_recursive(self, fv, args, kwargs):
+        """r = F(args) with the one-step unfolding  F(args) == body[F := uninterpreted]  assumed at this
+        application (a definitional axiom instance; deeper unfoldings come from further applications)"""
+        if kwargs:
+            raise Unsupported("keyword arguments to a recursive spec function")
+        r, key, boxed = self.rec_apply(fv, args)
+        done = getattr(self.p, "rec_unfolded", None)
+        if done is None:
+            done = self.p.rec_unfolded = set()
+        if key in done:
+            return r
+        done.add(key)
+        self.keepalive.extend(boxed)
+        prev = getattr(self, "_unfolding", None)
+        depth = getattr(self, "_unfold_depth", 0)
+
+        def thunk(fv=fv, args=args):
+            self._unfolding = fv.node
+            self._unfold_body = fv.node
+            self._unfold_depth = depth + 1
+            return self.call_func(fv, list(args), {})
+        try:
+            body = self.merged(thunk, self.merge_key(f"unfold{depth}:" + fv.qualname, args, {}), self.val_terms(args))
+        finally:
+            self._unfolding = prev
+            self._unfold_depth = depth
+        bt = self.box(body)
+        rt = fv.node.returns
+        if isinstance(rt, ast.Constant) and isinstance(rt.value, str):
+            self.p.obligations.append((f"{fv.qualname.split(':')[-1]}.declared-range", simp(self.type_cond(bt, rt.value)), ""))
+        self.p.assume(r.t == bt)
+        return r
+
     def val_terms(self, args):
-        return [a.t for a in args if isinstance(a, type(S_NONE)) and a.kind == "val"]
+        """terms of the arguments whose tag / class decided on the caller's path specialise a merged call"""
+        out = []
+        for a in args:
+            if not isinstance(a, type(S_NONE)):
+                continue
+            if a.kind == "val":
+                out.append(a.t)
+            elif a.kind == "ref" and conc_int(a.cls) is None:
+                out.append(Val.VRef(a.cls, a.ref))
+        return out
 
     def merge_key(self, name, args, kwargs):
         parts = [name]
@@ -1063,7 +1190,7 @@ class Interp(Engine):
 
     # ---- loops -----------------------------------------------------------------------
     def x_While(self, s, fr):
-        inv = self.loop_contract(s)
+        inv = self.loop_contract(s, fr)
         if inv is not None:
             return inv(self, s, fr)
         n = 0
@@ -1081,10 +1208,106 @@ class Interp(Engine):
             except _Continue:
                 continue
 
-    def loop_contract(self, s):
-        return self.loop_contracts.get(getattr(s, "lineno", None)) if self.loop_contracts else None
+    loop_invariants: dict = {}     # (qualname, loop ordinal) -> FuncVal of the invariant (harness code)
+    unfold_depth = 1               # definitional unfoldings of a recursive ghost function per application
 
-    loop_contracts: dict = {}
+    def loop_ordinal(self, fn_node, s):
+        k = 0
+        stack = list(reversed(fn_node.body))
+        while stack:
+            n = stack.pop()
+            if isinstance(n, (ast.FunctionDef, ast.Lambda, ast.ClassDef, ast.AsyncFunctionDef)):
+                continue
+            if isinstance(n, (ast.While, ast.For)):
+                if n is s:
+                    return k
+                k += 1
+            stack.extend(reversed(list(ast.iter_child_nodes(n))))
+        return None
+
+    def loop_contract(self, s, fr=None):
+        if not self.loop_invariants or fr is None or fr.fn_node is None:
+            return None
+        k = self.loop_ordinal(fr.fn_node, s)
+        qn = fr.qualname or ""
+        inv = self.loop_invariants.get((qn, k)) or self.loop_invariants.get((qn.split(":", 1)[-1], k))
+        if inv is None:
+            return None
+        return lambda eng, s_, fr_: eng.loop_by_invariant(s_, fr_, inv, f"{qn.split(':')[-1]}#loop{k}")
+
+    def eval_invariant(self, inv, fr):
+        """the invariant is harness code; its parameters name locals of the function at the loop head"""
+        node = inv.node
+        names = [a.arg for a in node.args.args]
+        args = []
+        for n in names:
+            v = fr.locals.get(n)
+            if v is None:
+                raise Unsupported(f"loop invariant refers to {n}, which is not bound at the loop head")
+            args.append(v)
+        return self.truthy(self.call_func(inv, args, {}))
+
+    def havoc(self, old: SV, name):
+        p = self.p
+        p.fresh_ctr += 1
+        k = old.kind
+        if k == "int":
+            return s_int(z3.Int(f"hv_{name}!{p.fresh_ctr}"))
+        if k == "bool":
+            return s_bool(z3.Bool(f"hv_{name}!{p.fresh_ctr}"))
+        if k == "str":
+            t = z3.String(f"hv_{name}!{p.fresh_ctr}")
+            p.assume(z3.Length(t) <= 2 ** 32)
+            return s_str(t)
+        if k in ("val", "ref", "none"):
+            t = z3.Const(f"hv_{name}!{p.fresh_ctr}", Val)
+            p.assume(M.val_wf(t))
+            p.assume(z3.Implies(Val.is_VRef(t), Val.ref(t) < p.alloc0 + p.nalloc))
+            return s_val(t)
+        raise Unsupported(f"loop modifies {name} of kind {k}: not havocable")
+
+    def loop_by_invariant(self, s, fr, inv, label):
+        """Hoare while rule.  Obligations: <label>.entry, <label>.preserved.  The loop body must not
+        write the heap (checked); locals assigned in the body are havoced."""
+        p = self.p
+        if not isinstance(s, ast.While):
+            raise Unsupported("invariants are supported on while loops only")
+        p.obligations.append((f"{label}.invariant-on-entry", simp(self.eval_invariant(inv, fr)), ""))
+        mod = set()
+        for st in s.body:
+            for n in ast.walk(st):
+                if isinstance(n, ast.Name) and isinstance(n.ctx, ast.Store):
+                    mod.add(n.id)
+        kinds = {}
+        for n in sorted(mod):
+            old = fr.locals.get(n)
+            if old is None:
+                continue            # first assigned inside the body
+            kinds[n] = old.kind
+            fr.locals[n] = self.havoc(old, n)
+        heap0 = dict(p.heap)
+        nalloc0 = p.nalloc
+        p.assume(self.eval_invariant(inv, fr))
+        if p.fork(self.truthy(self.eval(s.test, fr))):
+            try:
+                self.exec_block(s.body, fr)
+            except _Break:
+                return
+            except _Continue:
+                pass
+            for k, v in p.heap.items():
+                same = (v is heap0[k] or v.eq(heap0[k])) if k in heap0 else (z3.is_const(v) and v.decl().name().startswith("H0_"))
+                if not same:
+                    raise Unsupported(f"{label}: the loop body writes the heap field {k} (read-only loops only)")
+            if p.nalloc != nalloc0:
+                raise Unsupported(f"{label}: the loop body allocates (read-only loops only)")
+            for n, k in kinds.items():
+                nk = fr.locals[n].kind
+                if k in ("int", "bool", "str") and nk != k:
+                    raise Unsupported(f"{label}: {n} changes kind {k} -> {nk}")
+            p.obligations.append((f"{label}.invariant-preserved", simp(self.eval_invariant(inv, fr)), ""))
+            raise PathCut()
+        self.exec_block(s.orelse, fr)
 
     def iter_items(self, it: SV, node):
         """return a python list of SVs when the iterable has a statically known length, else None"""
@@ -1126,7 +1349,7 @@ class Interp(Engine):
         raise Unsupported(f"iteration over {it.kind}")
 
     def x_For(self, s, fr):
-        inv = self.loop_contract(s)
+        inv = self.loop_contract(s, fr)
         if inv is not None:
             return inv(self, s, fr)
         it = self.eval(s.iter, fr)
